@@ -15,6 +15,7 @@ import DfolsVerif.Proofs.CountAcc
 import DfolsVerif.Gen.ExitSites
 import DfolsVerif.Proofs.RestartGuards
 import DfolsVerif.Proofs.MainLoopPaths
+import DfolsVerif.Proofs.SolveMainCalls
 
 namespace Dfols
 namespace C10
@@ -234,6 +235,12 @@ example : (Skel.reach MainLoopPaths.mRuns Gen.mainLoop MainLoopPaths.q0Runs).len
 theorem C10_src_exit_object_on_break {tr : List String} {e : Skel.Ending} (hx : Skel.Exec Gen.mainLoop tr e) (he : e = .brk) :
     MainLoopPaths.mExit.run false tr = true :=
   MainLoopPaths.exit_trace hx he
+
+/-- the run counter a run hands back: `nruns_so_far + 1` at the two returns that stand before the main loop, `nruns_so_far` after the
+    loop (where every `break` has added exactly one: `C10_src_nruns_once`) — every entry of `solve_main` adds one run -/
+theorem C10_src_nruns_returned :
+    Gen.solveMainReturns.map (fun r => (r.drop 7).take 1) = [["nruns_so_far + 1"], ["nruns_so_far + 1"], ["nruns_so_far"]] :=
+  SolveMainCalls.nruns_returned
 
 end C10
 end Dfols
